@@ -18,9 +18,10 @@ rundemo() { if [ "$kind" = rs ]; then cargo run -q --offline --example "demo_$lc
 echo "== tests with change"; t=$(cargo test --workspace --no-fail-fast --offline 2>&1 | grep -E "^test result" | head -1); echo "$t"
 cargo build -q --offline --features verif 2>&1 | tail -2
 echo "== demo with change (expect non-zero)"; rundemo; with=$?; tail -3 /tmp/demo_out.$$
-git stash -q
+# (not `git stash`: the stash is shared by all worktrees of a repository)
+git apply -R "$out/patch.diff"
 echo "== demo without change (expect 0)"; rundemo; without=$?; tail -2 /tmp/demo_out.$$
-git stash pop -q
+git apply "$out/patch.diff"
 rm -f /tmp/demo_out.$$
 echo "with=$with without=$without"
 cat > "$out/confirm.txt" <<EOT
